@@ -195,32 +195,13 @@ def runA (abort : Nat → Bool) (key : Nat → Nat) (q : Nat → Nat → α) : S
     | some s' => runA abort key q s' ts
     | none => none
 
-/-- the invariant with aborting leaders: as `Inv`, and a finished object holds EITHER the answer of its flight's
-query OR nothing (its leader aborted; ghost: `abort leader`); whoever returned (pc 4) holds an answer of a query of
-its key; a leader that aborted (pc 5) and a follower that ran into the nil value (pc 6) hold no result. -/
-structure InvA (abort : Nat → Bool) (key : Nat → Nat) (q : Nat → Nat → α) (s : St α) : Prop where
-  reg    : ∀ k r, s.calls k = some r → r < s.next ∧ (s.heap r).key = k ∧ (s.heap r).pending = true ∧ (s.heap r).val = none
-  regl   : ∀ k r, s.calls k = some r →
-             (s.pc (s.heap r).leader = 1 ∨ s.pc (s.heap r).leader = 2) ∧ s.ref (s.heap r).leader = r ∧ key (s.heap r).leader = k
-  lead   : ∀ t, (s.pc t = 1 ∨ s.pc t = 2) → s.calls (key t) = some (s.ref t) ∧ (s.heap (s.ref t)).leader = t
-  wait   : ∀ t, s.pc t = 3 → s.ref t < s.next ∧ (s.heap (s.ref t)).key = key t
-  done   : ∀ r, r < s.next → (s.heap r).pending = false →
-             (abort (s.heap r).leader = false ∧ (s.heap r).val = some (q (s.heap r).key (s.heap r).flight))
-             ∨ (abort (s.heap r).leader = true ∧ (s.heap r).val = none)
-  ret    : ∀ t, s.pc t = 4 → s.ref t < s.next ∧ (s.heap (s.ref t)).key = key t ∧ (s.heap (s.ref t)).pending = false ∧
-             s.got t = some (q (key t) (s.heap (s.ref t)).flight)
-  own    : ∀ t, s.pc t = 5 → abort t = true
-  second : ∀ t, s.pc t = 6 → s.ref t < s.next ∧ (s.heap (s.ref t)).key = key t ∧ (s.heap (s.ref t)).pending = false ∧
-             abort (s.heap (s.ref t)).leader = true
-
-theorem invA_init (abort : Nat → Bool) (key : Nat → Nat) (q : Nat → Nat → α) : InvA abort key q (St.init : St α) := by
-  refine ⟨?_, ?_, ?_, ?_, ?_, ?_, ?_, ?_⟩ <;> simp [St.init]
-
 /-
-FULL STATEMENT for aborting leaders (not proven as a whole — the eight-field induction exceeds what `grind`
-closes within the heartbeat limit; proven instead: the single transitions `aborting_leader_releases_the_key`,
-`follower_of_an_aborted_flight_panics`, and the witness schedules in PropsCalls.lean):
-  theorem invA_reachable (h : ReachableA abort key q s) : InvA abort key q s
+FULL STATEMENT for aborting leaders (NOT proven; only its single transitions and witness schedules are):
+  for every state reachable by `stepA`: the call-object invariant of `Inv` holds, a finished object holds EITHER the
+  answer of its flight's query OR nothing (its leader aborted); whoever returned (pc 4) holds an answer of a query of
+  its key; a leader that aborted is at pc 5, a follower that ran into the nil value at pc 6, and neither holds a result.
+Proven below: `aborting_leader_releases_the_key`, `follower_of_an_aborted_flight_panics`; in PropsCalls.lean the
+schedules `aborting_leader_witness`, `returning_leader_same_schedule`.
 -/
 
 /-- the leader whose fn does not return: the call is removed from the map and the object released with
